@@ -74,6 +74,10 @@ MUTANTS = [  # (contract module, qualname, file, regex, replacement, expect)  ex
  ("contracts.c13", "CausalInference.is_valid_frontdoor_adjustment_set", "pgmpy/inference/CausalInference.py", r"valid_backdoor_sets.append\(self.is_valid_backdoor_adjustment_set\(zz, Y, X\)\)", "valid_backdoor_sets.append(self.is_valid_backdoor_adjustment_set(zz, Y))", "break"),
  ("contracts.c13", "CausalInference.is_valid_frontdoor_adjustment_set", "pgmpy/inference/CausalInference.py", r"        if directed_paths == \[\]:\n            return False\n", "", "break"),
  ("contracts.c13", "CausalInference.get_all_frontdoor_adjustment_sets", "pgmpy/inference/CausalInference.py", r"possible_adjustment_variables = set\(self.observed_variables\) - \{X\} - \{Y\}\n\n        valid_adjustment_sets = frozenset", "possible_adjustment_variables = set(self.observed_variables) - {X}\n\n        valid_adjustment_sets = frozenset", "break"),
+ ("contracts.c18", "Independencies.entails", "pgmpy/independencies/Independencies.py", r"        return all\(\n            ind in implications for ind in entailed_independencies.get_assertions\(\)", "        return any(\n            ind in implications for ind in entailed_independencies.get_assertions()", "break"),
+ ("contracts.c18", "Independencies.entails", "pgmpy/independencies/Independencies.py", r"implications = self.closure\(\).get_assertions\(\)", "implications = self.get_assertions()", "break"),
+ ("contracts.c18", "Independencies.is_equivalent", "pgmpy/independencies/Independencies.py", r"return self.entails\(other\) and other.entails\(self\)", "return self.entails(other) or other.entails(self)", "break"),
+ ("contracts.c18", "Independencies.contains", "pgmpy/independencies/Independencies.py", r"return assertion in self.get_assertions\(\)", "return assertion not in self.get_assertions()", "break"),
 ]
 
 
